@@ -25,6 +25,25 @@ class C18(Prop):
                              "hand-duplicated parts (skip_until's Cell/AtomicBool flag, Subscriber/SubscriberThreads, "
                              "box_it, MultiSubscription(Threads)) are modelled by the same definitions")
 
+    # translator tie: the thread-safe instantiation of the macro-stamped two-input cells (and the hand-duplicated
+    # ShareObserverThreads of skip_until) is the SAME model cell as the local one (GenTie/*Threads.lean)
+    tie_modules = {
+        "RxModel.GenTie.MergeThreads": ['merge'],
+        "RxModel.GenTie.WiringMergeThreads": ['merge'],
+        "RxModel.GenTie.ZipThreads": ['zip'],
+        "RxModel.GenTie.WiringZipThreads": ['zip'],
+        "RxModel.GenTie.CombineLatestThreads": ['combine'],
+        "RxModel.GenTie.WiringCombineLatestThreads": ['combine'],
+        "RxModel.GenTie.WithLatestFromThreads": ['withlatest'],
+        "RxModel.GenTie.WiringWithLatestFromThreads": ['withlatest'],
+        "RxModel.GenTie.TakeUntilThreads": ['takeuntil'],
+        "RxModel.GenTie.WiringTakeUntilThreads": ['takeuntil'],
+        "RxModel.GenTie.SkipUntilThreads": ['skipuntil'],
+        "RxModel.GenTie.WiringSkipUntilThreads": ['skipuntil'],
+        "RxModel.GenTie.SampleThreads": ['sample'],
+        "RxModel.GenTie.WiringSampleThreads": ['sample'],
+    }
+
     def cases(self, tier, seed):
         rng = random.Random(seed + 18)
         base = []
